@@ -317,7 +317,7 @@ impl<C: Suite> MExchange<C> {
         MExchange {
             seed,
             sks: [3usize, 2].iter().map(|i| sk_from_be::<C>(&ka.be[*i]).unwrap()).collect(),
-            lens: vec![0, 5, 30, 31, 32, 33, 45, 127, 128, 200, 16383, 16384],
+            lens: vec![0, 5, 30, 31, 32, 33, 45, 127, 128, 200, 16383, 16384, 65535, 65536, 65537, 2097151, 2097152],
             ids: vec![vec![], b"id".to_vec(), data(seed, "c18-id", 64)],
         }
     }
